@@ -19,7 +19,7 @@ use crate::util::*;
 pub const PROP: Prop = Prop {
     id: "C17",
     level: "exploration",
-    rule: "(round 8: six more character contexts - after an ASCII first character, inside a character name, after hex digits, after the Emacs quoting backslash, after a meta prefix) (rounds 6-7: seven byte-carrying tokens followed by fourteen prefix-assembled tokens under all 1536 option sets; ill-formed and valid payloads after 252-65 537 bytes of content in a string, a name, an Emacs string and a nested string, so that they straddle every power-of-two block boundary) (every input is parsed one-shot AND iterated past errors with both APIs from all three sources, every yielded item checked; five contexts place the payload directly after an error that consumes a single byte, so that iteration resumes inside a character) byte inputs built as context x payload: 18 contexts (symbol, symbol-initial, keyword, R6RS and Emacs strings with escapes before/after the payload, #\\ and ? characters, comments, inside lists and vectors) x every 1- and 2-byte payload (exhaustive), every 3-byte payload with a lead >= 0x80 (thorough), structured 4-byte classes (valid, overlong, > U+10FFFF, F5-FF leads, truncated at each length, surrogates); plus string literals assembled from escape pieces, printed/mutated/random inputs through from_str (valid UTF-8 only), from_slice and from_reader, value and datum API; output side: to_string_custom vs to_vec_custom for generated values x all 576 printer option sets. Oracle: every str reachable from a returned value passes str::from_utf8 (the verif-hooks feature additionally asserts validity at each from_utf8_unchecked site); a payload of bytes >= 0x80 that is not valid UTF-8 inside a symbol, keyword, string or character makes the parse fail, inside a comment it is skipped; a valid payload arrives unchanged. non-trivial = the input contains a byte >= 0x80 or an escape producing one; distinct by digest of (input, options)",
+    rule: "(round 9: names that run to the end of the input with each kind of first character - sign, plus, non-ASCII, dot, keyword prefix) (round 8: six more character contexts - after an ASCII first character, inside a character name, after hex digits, after the Emacs quoting backslash, after a meta prefix) (rounds 6-7: seven byte-carrying tokens followed by fourteen prefix-assembled tokens under all 1536 option sets; ill-formed and valid payloads after 252-65 537 bytes of content in a string, a name, an Emacs string and a nested string, so that they straddle every power-of-two block boundary) (every input is parsed one-shot AND iterated past errors with both APIs from all three sources, every yielded item checked; five contexts place the payload directly after an error that consumes a single byte, so that iteration resumes inside a character) byte inputs built as context x payload: 18 contexts (symbol, symbol-initial, keyword, R6RS and Emacs strings with escapes before/after the payload, #\\ and ? characters, comments, inside lists and vectors) x every 1- and 2-byte payload (exhaustive), every 3-byte payload with a lead >= 0x80 (thorough), structured 4-byte classes (valid, overlong, > U+10FFFF, F5-FF leads, truncated at each length, surrogates); plus string literals assembled from escape pieces, printed/mutated/random inputs through from_str (valid UTF-8 only), from_slice and from_reader, value and datum API; output side: to_string_custom vs to_vec_custom for generated values x all 576 printer option sets. Oracle: every str reachable from a returned value passes str::from_utf8 (the verif-hooks feature additionally asserts validity at each from_utf8_unchecked site); a payload of bytes >= 0x80 that is not valid UTF-8 inside a symbol, keyword, string or character makes the parse fail, inside a comment it is skipped; a valid payload arrives unchanged. non-trivial = the input contains a byte >= 0x80 or an escape producing one; distinct by digest of (input, options)",
     assumptions: &[
         "validity is checked with std::str::from_utf8 on the bytes of every returned str, and by the hook assertions at creation time; no memory model is involved",
     ],
